@@ -339,9 +339,9 @@ class MailboxWorld:
         if kind == "wait_received":
             return len(c.received) >= op[1] or c.is_closed
         if kind == "wait_event":
-            return c.has(op[1]) or c.is_closed
+            return c.has(op[1]) or c.is_closed or c.saw_failure
         if kind == "wait_event_or_steps":
-            return c.has(op[1]) or c.is_closed or \
+            return c.has(op[1]) or c.is_closed or c.saw_failure or \
                 self._waited(c, op[2] * 0.05)
         if kind == "wait_steps":
             return self._waited(c, op[1] * 0.05)
@@ -349,12 +349,19 @@ class MailboxWorld:
             # stands in for an application-level "we are done" handshake: both
             # directions fully delivered (or somebody already closed)
             peer = self.by_name(op[1])
-            if c.is_closed or peer.is_closed:
+            if c.is_closed or peer.is_closed or c.saw_failure or \
+                    peer.saw_failure:
                 return True
             for x, y in ((c, peer), (peer, c)):
                 if not x.has("versions"):
                     return False
-                if any(o[0] == "send" for o in y.script[y.pc:]):
+                pending_send = False
+                for o in y.script[y.pc:]:
+                    if o[0] == "close":
+                        break
+                    if o[0] == "send":
+                        pending_send = True
+                if pending_send:
                     return False
                 if len(x.received) < len(y.sent):
                     return False
@@ -375,11 +382,16 @@ class MailboxWorld:
         if kind.endswith("_from") and self.by_name(op[1]).code is None:
             self.sim.ev("op_skipped", c.name, kind)
             return "skipped"
-        if kind in CODE_OPS and (c.saw_failure or c.is_closed) and \
+        if (kind in CODE_OPS or kind in ("helper", "dilate")) and \
+                (c.saw_failure or c.is_closed or c.close_called) and \
                 not self.opts.get("ambiguous_calls"):
             # an application that was already told the wormhole failed does
             # not go on entering a code
             self.sim.ev("op_skipped", c.name, kind)
+            return "skipped"
+        if kind in ("refresh_nameplates", "choose_nameplate_from",
+                    "choose_words_from", "choose_wrong_words_from") and \
+                c.helper is None:
             return "skipped"
         if kind == "allocate":
             c.call("allocate", w.allocate_code, op[1],
@@ -402,8 +414,10 @@ class MailboxWorld:
                    expect=(E.AlreadyChoseWordsError,
                            E.MustChooseNameplateFirstError))
         elif kind == "input":
-            c.helper = c.call("input_code", w.input_code,
-                              expect=(E.OnlyOneCodeError,))
+            h = c.call("input_code", w.input_code,
+                       expect=(E.OnlyOneCodeError,))
+            if h is not None:
+                c.helper = h
         elif kind == "refresh_nameplates":
             c.call("refresh", c.helper.refresh_nameplates,
                    expect=(E.AlreadyChoseNameplateError,))
@@ -417,6 +431,19 @@ class MailboxWorld:
             c.call("choose_words", c.helper.choose_words, words,
                    expect=(E.AlreadyChoseWordsError,
                            E.MustChooseNameplateFirstError))
+        elif kind == "helper":
+            if c.helper is None:
+                return "skipped"
+            c.call("helper." + op[1], getattr(c.helper, op[1]), *op[2:],
+                   expect=(E.AlreadyChoseNameplateError,
+                           E.AlreadyChoseWordsError,
+                           E.MustChooseNameplateFirstError,
+                           E.KeyFormatError))
+        elif kind == "derive_key":
+            c.call("derive_key", w.derive_key, op[1], op[2],
+                   expect=(E.NoKeyError,))
+        elif kind == "dilate":
+            c.dilated = c.call("dilate", lambda: w.dilate(**op[1]))
         elif kind == "send":
             c.do_send(op[1])
         elif kind == "close":
@@ -430,6 +457,8 @@ class MailboxWorld:
 
     def _extra_get(self, c, kind):
         w = c.w
+        if c.api != "deferred":
+            return
         getter = {"welcome": w.get_welcome, "code": w.get_code,
                   "key": w.get_unverified_key, "verifier": w.get_verifier,
                   "versions": w.get_versions, "message": w.get_message}[kind]
@@ -515,7 +544,8 @@ class MailboxWorld:
                 continue
             # the *initial* connection failing is documented as fatal
             # (ServerConnectionError); faults only hit established sessions
-            if link.owner is None or not link.owner.ever_open:
+            if link.owner is None or not (link.owner.ever_open or
+                                          self.opts.get("fault_initial")):
                 continue
             c_end, s_end = link.ends
             if link.up and (c_end.alive or s_end.alive):
@@ -544,7 +574,7 @@ class MailboxWorld:
                        for e in link.ends):
                     evs.append(("reveal:%d" % link.serial,
                                 lambda l=link: self._f_reveal(l)))
-        if not all_open:
+        if not all_open and not self.opts.get("fault_initial"):
             return evs
         if "server_restart" in kinds and any(
                 l.up for l in net.links if l.mode == "message"):
